@@ -832,17 +832,13 @@ func (g *Generator) getMethodPath(method *protogen.Method, basePath string, pack
 
 	// If we have both base path and custom path, combine them
 	if basePath != "" && customPath != "" {
-		// Ensure proper path joining
-		basePath = strings.TrimSuffix(basePath, "/")
-		if !strings.HasPrefix(customPath, "/") {
-			customPath = "/" + customPath
-		}
-		return basePath + customPath
+		// Join exactly like the client, TS and OpenAPI generators do
+		return annotations.BuildHTTPPath(basePath, customPath)
 	}
 
 	// If only custom path, use it
 	if customPath != "" {
-		return customPath
+		return annotations.EnsureLeadingSlash(customPath)
 	}
 
 	// Generate default path
